@@ -25,14 +25,14 @@ impl DistMatrix {
             let __end0 = coefs1.len();
             for i1 in 0..__end0
             {
-                let coef = &coefs1[i1];
+                let coef = coefs1[i1];
                 let prev = self.get_unchecked(i1 + 1, 1);
                 self.set_unchecked(i1 + 2, 1, prev + coef);
             }
             let __end1 = coefs2.len();
             for i2 in 0..__end1
             {
-                let coef = &coefs2[i2];
+                let coef = coefs2[i2];
                 let prev = self.get_unchecked(1, i2 + 1);
                 self.set_unchecked(1, i2 + 2, prev + coef);
             }
@@ -98,7 +98,6 @@ pub enum PartOfSpeech {
     Article,
 }
 // @item rust/core/src/tokenization/word_view.rs :: struct WordView
-#[derive(Clone, PartialEq, Structural)]
 pub struct WordView<'a> {
     pub offset: usize,
     pub slice: (usize, usize),
@@ -115,7 +114,7 @@ impl<'a> WordView<'a> {
     {
         self.offset
     }
-    fn slice(&self) -> (usize, usize)
+    fn slice(&self) -> (ret: (usize, usize))
     {
         self.slice
     }
